@@ -1,5 +1,6 @@
 import RactorModel.Lemmas.FactoryFate
 import RactorModel.Lemmas.FactoryCountW
+import RactorModel.Lemmas.FactorySlotInst
 
 /-!
 # C13 — Factory: every job meets exactly one fate, never runs twice
@@ -94,6 +95,16 @@ theorem no_job_from_nowhere (c : CaseCfg) (steps : List Step) (i : Nat)
   have := accepted_le i (init c) steps
   rw [conservation]; omega
 
+/-- (at most one job per worker death — the part that is true of the code, `_partial`) for
+every router and EVERY sequence of operations the factory has at most one job booked as in
+flight on a slot, so a death of that slot's worker abandons at most one job OF THE BOOKKEEPING.
+That the worker ACTOR holds no more than that needs `noStaleCompletion`: after a stale completion
+(finding F4) the record is cleared while the actor still runs the job and the factory hands it
+another one — see the witness below, where one death loses two jobs. -/
+theorem one_job_per_death_partial (c : CaseCfg) (steps : List Step) :
+    ∀ p ∈ ((init c).runSteps steps).pool, p.curr.length ≤ 1 :=
+  fun p hp => (slot_always slotOk_inv c steps p hp).one
+
 /-! ## A worker death loses only what that incarnation held -/
 
 /-- When actor `aid` dies exactly the jobs it held are lost (one `lost` event each), its
@@ -169,5 +180,6 @@ end C13
 #print axioms C13.at_most_one_fate
 #print axioms C13.accepted_job_is_somewhere
 #print axioms C13.no_job_from_nowhere
+#print axioms C13.one_job_per_death_partial
 #print axioms C13.die_loses_only_held
 #print axioms C13.dispatchJob_to_dead_keeps_job
